@@ -12,11 +12,11 @@ from sa.props._lib_a import (DEFER, Q, RunShape, ChainWalk, group, root_callers,
                              known_zero, method_call, name_assign_nodes, no_exc, params, stmt_nodes, targets_values)
 
 PROPERTY = "C01"
-TECHNIQUE = "CFG dominance/must-pass + who-may-mutate over Deferred._runCallbacks and add*/pause/unpause"
+TECHNIQUE = "structural: CFG dominance/must-pass, who-may-mutate closure, symbolic chain-stack typestate"
 EXPLANATION = (
-    "Decides the structural clauses of the chaining rules on the CFG of Deferred._runCallbacks, addCallbacks/addCallback/"
+    "All rules are structural (for-all-paths verdicts on the code with private helpers inlined; nothing is run or sampled). Decides the clauses of the chaining rules on the CFG of Deferred._runCallbacks, addCallbacks/addCallback/"
     "addErrback/addBoth, pause and unpause: (a) `callbacks` is filled only by append (correct success/error slot per adder) and "
-    "drained only from the front, the chain stack is used LIFO; (b) the user call-out is bracketed by _runningCallbacks "
+    "drained only from the front [who-may-mutate by operation kind], the chain stack discipline per kind of round ending (hand-over / re-chained / exhausted) [symbolic walk of all paths of one round = typestate]; (b) the user call-out is bracketed by _runningCallbacks "
     "True/False on every path incl. exceptions, is skipped re-entrantly, gets `current.result, *args, **kwargs` of the slot "
     "selected by isinstance(result, Failure) and its value/exception (BaseException) becomes the result; (c) a paused Deferred "
     "runs nothing, pause/unpause and the pause-and-chain / _CONTINUE hand-over are balanced (one decrement, result moved, inner "
@@ -25,6 +25,12 @@ EXPLANATION = (
     "Not decided: equality of every callback input with a reference interpreter for arbitrary programs (value flow through "
     "user callbacks), _debugInfo bookkeeping, addTimeout/chainDeferred."
 )
+RULE_KINDS = {
+    # every rule is decided on the (helper-inlined) code itself: CFG dominance / must-pass with exception edges, who-may-mutate closed over
+    # the callers of private helpers, def-use of the call-out arguments, and the symbolic chain-stack walk (a typestate over all paths of one
+    # round of the outer loop - no repository code is evaluated on sample inputs)
+    "*": "structural",
+}
 ASSUMPTIONS = [
     "Deferred.callbacks / paused / _runningCallbacks are mutated only inside internet/defer.py (who-may-mutate is decided for that module)",
     "pause counters are non-negative integers",
